@@ -107,6 +107,49 @@ def loop_bound(draw, rvs, fanout, salt=0):
 
 
 @st.composite
+def deep_spatial_cases(draw, salt=0):
+    """variant C: one Einsum on Main + GLB + L1 above a fanout + MAC, with an `==` / `>=` loop bound of 2..4 on a rank
+    variable whose bound is large enough for two temporal loops above the spatial one (the constrained trip count is then
+    'innermost enclosing tile / own tile', which differs from 'outermost enclosing tile / own tile')"""
+    shape = draw(st.sampled_from(["matmul", "matmul", "matvec"]))
+    es, rvs = G.matmul_ab() if shape == "matmul" else G.matvec()
+    crv = draw(st.sampled_from(rvs))
+    fanout = draw(st.sampled_from([2, 4, 4]))
+    bounds = {rv: (draw(st.sampled_from([8, 16, 16])) if rv == crv else draw(st.sampled_from([2, 2, 4]))) for rv in rvs}
+    bits = draw(st.sampled_from([4, 8]))
+    wl = {"shape": shape, "einsums": es, "bounds": bounds, "bits": {"All": bits}, "n_instances": 1}
+    sizes = G.tensor_sizes(wl)
+    tot, big = sum(sizes.values()), max(sizes.values())
+    op = draw(st.sampled_from(["==", "==", ">="]))
+    val = draw(st.sampled_from([2, fanout, fanout, fanout]))
+    dim = {"name": "X", "fanout": fanout, "loop_bounds": [{"expression": crv, "operator": op, "value": val}]}
+    if draw(st.booleans()):
+        other = [r for r in rvs if r != crv]
+        dim["loop_bounds"].append({"expression": draw(st.sampled_from(other)), "operator": "==", "value": 1})
+    glb_vals = draw(st.sampled_from([max(4, tot // 2), max(4, big), max(4, big // 2), "inf"]))
+    # the buffer above the array feeds all PEs: the constrained fanout needs `val` values of every tensor indexed by the
+    # constrained rank variable plus one of each other tensor; capacities around that threshold decide whether a valid
+    # mapping exists at all
+    need = sum(val if crv in proj else 1 for e in es for _, proj, _ in e["tensors"])
+    l1_vals = draw(st.sampled_from([need - 1, need - 1, need - 1, need, need + 1, 2 * need]))
+    nodes = [{"type": "Memory", "name": "Main", "size": "inf", "keep": "All", "may_keep": "All",
+              "read": [draw(st.sampled_from([10, 50])), draw(st.sampled_from(["inf", 2]))],
+              "write": [draw(st.sampled_from([10, 50])), draw(st.sampled_from(["inf", 2]))], "leak": 0},
+             {"type": "Memory", "name": "GLB", "size": "inf" if glb_vals == "inf" else glb_vals * bits + bits / 2,
+              "keep": draw(st.sampled_from(["All", "All", "Nothing"])), "may_keep": "All", "read": [2, draw(st.sampled_from(["inf", 4]))],
+              "write": [2, draw(st.sampled_from(["inf", 4]))], "leak": 0},
+             {"type": "Memory", "name": "Reg", "size": l1_vals * bits + bits / 2,
+              "keep": "All", "may_keep": "All", "read": [1, "inf"], "write": [1, "inf"], "leak": 0},
+             {"type": "Container", "name": "PEs", "spatial": [dim]},
+             {"type": "Compute", "name": "MAC", "compute": [1, 1], "leak": 0}]
+    d = dict(wl)
+    d["nodes"] = nodes
+    # large fronts (RESOURCE_USAGE among the metrics) return many mappings, every one of which is validated
+    d["mapper"] = {"metrics": draw(st.sampled_from(["LATENCY", "ENERGY", "ENERGY|LATENCY|RESOURCE_USAGE", "ENERGY|LATENCY|RESOURCE_USAGE"]))}
+    return {"spec": d, "family": "spatial", "deep": True}
+
+
+@st.composite
 def spatial_cases(draw, salt=0):
     """variant A: one Einsum on Main + fanout (Container, or declared on the Reg memory) + Reg + MAC, 1-2 dims;
     variant B: two Einsums (fusable) on Main + GLB + Container fanout + MAC, 1 dim (a Reg level below a fanout with
@@ -479,7 +522,7 @@ def check(desc, col):
     family = desc.get("family") or ("spatial" if any(n.get("spatial") for n in sp["nodes"]) else "temporal")
     metrics = (sp.get("mapper") or {}).get("metrics", "ENERGY")
     present = classes_present(sp)
-    base = [f"family:{family}", f"einsums:{len(sp['einsums'])}", f"metrics:{metrics}"] + [f"present:{c}" for c in present]
+    base = [f"family:{family}" + ("-deep" if desc.get("deep") else ""), f"einsums:{len(sp['einsums'])}", f"metrics:{metrics}"] + [f"present:{c}" for c in present]
     for n in sp["nodes"]:
         for dim in n.get("spatial") or []:
             for lb in dim.get("loop_bounds") or []:
@@ -563,15 +606,16 @@ def check(desc, col):
         col.label("min_usage:below_no_witness" if w is None else "min_usage:below-although-reachable")
 
 
-N = {"quick": (32, 32), "thorough": (320, 320)}
+N = {"quick": (32, 32, 32), "thorough": (320, 320, 320)}    # temporal, spatial, deep spatial
 NSHARDS = 16
 QUICK_BUDGET_S = 600
 THOROUGH_BUDGET_S = 3000
 
 
 def shards(tier, seed):
-    a, b = N[tier]
-    return [{"k": k, "n_temporal": a // NSHARDS, "n_spatial": b // NSHARDS, "seed": seed} for k in range(NSHARDS)]
+    a, b, c = N[tier]
+    return [{"k": k, "n_temporal": a // NSHARDS, "n_spatial": b // NSHARDS, "n_deep": c // NSHARDS, "seed": seed}
+            for k in range(NSHARDS)]
 
 
 def run_shard(shard, col):
@@ -579,6 +623,8 @@ def run_shard(shard, col):
     salt = shard["k"] + hash32(shard["seed"], "C03salt") % 97
     drive(temporal_cases(salt), check, n=shard["n_temporal"], seed=hash32(shard["seed"], "C03t", shard["k"]), col=col, shrink=shrink)
     drive(spatial_cases(salt), check, n=shard["n_spatial"], seed=hash32(shard["seed"], "C03s", shard["k"]), col=col, shrink=shrink)
+    drive(deep_spatial_cases(salt), check, n=shard.get("n_deep", 0), seed=hash32(shard["seed"], "C03d", shard["k"]), col=col,
+          shrink=shrink)
 
 
 def replay(desc, col):
